@@ -92,10 +92,7 @@ impl<T> From<sync::PoisonError<T>> for Status {
 
 impl From<snap::Error> for Status {
     fn from(e: snap::Error) -> Status {
-        Status {
-            code: StatusCode::CompressionError,
-            err: e.to_string(),
-        }
+        Status::new(StatusCode::CompressionError, &e.to_string())
     }
 }
 
